@@ -262,3 +262,4 @@ impl TxInputsBuilder {
     /// the input builder after a regular input was added
     pub uninterp spec fn with_regular(&self, address: Address, input: TransactionInput, amount: Value) -> TxInputsBuilder;
 }
+
